@@ -4,7 +4,7 @@
    str_sub / uri_sub) are regenerated from the source on every run; the proofs
    re-check them on every code point below 2^16 by computation and by a bound
    argument above. *)
-From HS Require Import Base.Prelude Gen.EscapeData Model.Escape Proofs.EscapeP.
+From HS Require Import Base.Prelude Gen.EscapeData Model.Escape Proofs.EscapeP Proofs.EscapeGrammarP.
 Open Scope N_scope.
 
 (* every string, over ALL code points, can be written *)
@@ -52,3 +52,13 @@ Example C08_example :
   escape_str [97; 34; 92; 36; 10; 0; 233; 128512; 96]
   = Ok [97; 92;34; 92;92; 92;36; 92;110; 92;117;48;48;48;48; 92;117;48;48;101;57; 128512; 96].
 Proof. vm_compute. reflexivity. Qed.
+
+(* what is written between the quotes is a sequence of the grammar's literal characters and escapes and nothing else
+   (the literal production as an inductive relation, Proofs/EscapeGrammarP.v, independent of the reader): no raw quote, no
+   raw backslash, no control character can stand there, whatever the payload *)
+Theorem C08_written_string_in_grammar : forall s t, zdump_str s = Ok t -> literal DQ str_esc_letters t.
+Proof. exact written_string_in_grammar. Qed.
+Theorem C08_written_uri_in_grammar : forall s t, zdump_uri s = Ok t -> literal BQ uri_esc_letters t.
+Proof. exact written_uri_in_grammar. Qed.
+Print Assumptions C08_written_string_in_grammar.
+Print Assumptions C08_written_uri_in_grammar.
